@@ -176,6 +176,17 @@ pub fn run(ctx: &Ctx, ev: &mut Ev) {
             for p in [65_535usize, 65_536, n - 1] { if p < n { let old = u[p]; u[p] = 0xDC00; check_units(&mut drv, ev, &u, (p % 8) * 2, true); u[p] = old; } }
         } }
     }
+    // (a5) every (lead byte, second byte) cell: each pair alone and completed by continuation bytes, bare, after a 13-byte pad
+    // and after a 61-byte pad (the validators are table driven; a wrong cell shows only for that pair)
+    if ctx.want("cells") && !tiny {
+        for a in 0xC0..=0xFFu32 {
+            if !ev.mine() { continue; }
+            for b in 0..=0xFFu32 { for (ti, tail) in [&[][..], &[0x80u8][..], &[0xBF], &[0x80, 0x80], &[0xBF, 0xBF], &[0x80, 0x61]].iter().enumerate() { for pad in [0usize, 13, 61] {
+                let mut v = vec![b'a'; pad]; v.push(a as u8); v.push(b as u8); v.extend_from_slice(tail); v.push(b'z');
+                check_bytes(&mut drv, ev, &v, (a as usize + b as usize + ti) % 16, true, false);
+            } } }
+        }
+    }
     // (b) two defects for selected lengths
     if ctx.want("two") && !tiny {
         let lens: Vec<usize> = (0..=40).chain(60..=70).chain(120..=135).collect();
